@@ -398,8 +398,10 @@ impl MDBShardFile {
             cas_index += 1 + ci.chunks.len();
         }
 
-        read_truncated_hashes.sort_by_key(|s| s.0);
-        truncated_hashes.sort_by_key(|s| s.0);
+        // Entries that share a truncated hash (e.g. the same chunk stored in two xorbs) have no defined relative
+        // order in either listing, so compare under the total order of the whole (hash, location) tuple.
+        read_truncated_hashes.sort_unstable();
+        truncated_hashes.sort_unstable();
 
         assert_eq!(read_truncated_hashes, truncated_hashes);
     }
